@@ -51,3 +51,81 @@ func VerifC06SetLastPoint() {
 		verifrt.Assert(!acc, "C06.setlastpoint.lower-height-rejected")
 	}
 }
+
+// verifC06Emit: a real voteproof for point p produced by a fresh ballotbox from the votes of the
+// first `votes0` nodes for fact 0 and the next `votes1` nodes for fact 1.
+func verifC06Emit(p verifBBPoint, votes0, votes1 int) base.Voteproof {
+	w := verifBBNewWorld(4, base.Threshold(60))
+	node := 0
+	for i := 0; i < votes0; i++ {
+		_, deferred, _ := w.box.vote(w.signFact(node, p, 0), nil, nil)
+		if deferred != nil {
+			deferred()
+		}
+		node++
+	}
+	for i := 0; i < votes1; i++ {
+		_, deferred, _ := w.box.vote(w.signFact(node, p, 1), nil, nil)
+		if deferred != nil {
+			deferred()
+		}
+		node++
+	}
+	vps := w.drain()
+	if len(vps) == 0 {
+		return nil
+	}
+	return vps[len(vps)-1]
+}
+
+// VerifC06BallotboxDetour: the position of a ballotbox whose current position is a draw (not a
+// majority) while suffrage-confirm ballots of an EARLIER round (or lower height) arrive, some of
+// them carrying old voteproofs: after every step the position obeys the same rules: never a lower
+// height; an earlier round or stage only by taking a suffrage-confirm result.
+func VerifC06BallotboxDetour() {
+	w := verifBBNewWorld(4, base.Threshold(60))
+	cur := verifBBPoint{h: 33, r: 1, stage: base.StageINIT}
+	// the current position: a draw at 33/1 INIT (2 votes each for two facts)
+	for node := 0; node < 4; node++ {
+		_, deferred, _ := w.box.vote(w.signFact(node, cur, node/2), nil, nil)
+		if deferred != nil {
+			deferred()
+		}
+	}
+	_ = w.drain()
+	last := w.box.LastPoint()
+	verifrt.Assert(!last.IsZero() && last.Height() == 33 && last.Round() == 1 && !last.IsMajority(), "C06.harness.position-is-a-draw-at-33/1")
+	// what the suffrage-confirm ballots carry
+	var carried base.Voteproof
+	switch verifrt.NondetChoice("carried-voteproof", 4) {
+	case 1:
+		carried = verifC06Emit(verifBBPoint{h: 33, r: 0, stage: base.StageINIT}, 3, 0) // old majority of the earlier round
+	case 2:
+		carried = verifC06Emit(verifBBPoint{h: 32, r: 0, stage: base.StageACCEPT}, 3, 0) // majority of the lower height
+	case 3:
+		carried = verifC06Emit(verifBBPoint{h: 33, r: 0, stage: base.StageINIT}, 2, 2) // old draw of the earlier round
+	}
+	scp := []verifBBPoint{{h: 33, r: 0, stage: base.StageINIT, sc: true}, {h: 32, r: 0, stage: base.StageINIT, sc: true}}[verifrt.NondetChoice("suffrage-confirm-point", 2)]
+	nvotes := 1 + verifrt.NondetChoice("suffrage-confirm-votes", 3)
+	for node := 0; node < nvotes; node++ {
+		before := w.box.LastPoint()
+		_, deferred, err := w.box.vote(w.signFact(node, scp, 0), carried, nil)
+		verifrt.Assert(err == nil, "C06.harness.vote")
+		if deferred != nil {
+			deferred()
+		}
+		_ = w.drain()
+		after := w.box.LastPoint()
+		verifrt.Reach("C06.detour.step")
+		if after != before {
+			verifrt.Reach("C06.detour.position-moved")
+			verifrt.Assert(after.Height() >= before.Height(), "C06.ballotbox.position-never-moves-to-a-lower-height")
+			earlier := after.Height() == before.Height() && (after.Round() < before.Round() ||
+				(after.Round() == before.Round() && after.Stage().Compare(before.Stage()) < 0))
+			if earlier {
+				verifrt.Assert(after.IsSuffrageConfirm() && !before.IsMajority(),
+					"C06.ballotbox.earlier-round-or-stage-only-to-take-a-suffrage-confirm-result-while-not-majority")
+			}
+		}
+	}
+}
